@@ -17,6 +17,8 @@ namespace tapkee_internal
 __TAPKEE_IMPLEMENTATION(PrincipalComponentAnalysis)
     void validate()
     {
+        // there are only as many projection directions as features
+        parameters[target_dimension].checked().satisfies(InClosedRange<IndexType>(1, current_dimension)).orThrow();
     }
 
     TapkeeOutput embed()
